@@ -46,6 +46,7 @@ public:
     size_t n;
     list(): n(0) {}
     T& emplace_back() { __CPROVER_assert(n < VERIF_LIST_CAP, "stub: list capacity"); ptr[n] = new T(); n++; return *ptr[n - 1]; }
+    T& emplace_back(const T& v) { __CPROVER_assert(n < VERIF_LIST_CAP, "stub: list capacity"); ptr[n] = new T(v); n++; return *ptr[n - 1]; }
     T& back() { __CPROVER_assert(n > 0, "stub: back() on a non-empty list"); return *ptr[n - 1]; }
     size_t size() const { return n; }
     bool empty() const { return n == 0; }
@@ -134,10 +135,12 @@ public:
     std::list<template_t> templates;
     std::list<template_t> dyn_templates;
     std::list<instance_t> instances;
+    std::list<instance_t> lsc_instances;
     std::list<instance_t> processes;
     template_t& add_template(verif_name name, frame_t params, position_t position, const bool is_TA, verif_str typeLSC, verif_str mode);
     template_t& add_dynamic_template(verif_name name, frame_t params, position_t pos);
     instance_t& add_instance(verif_name name, instance_t& inst, frame_t params, const std::vector<expression_t>& arguments, position_t pos);
+    instance_t& add_LSC_instance(verif_name name, instance_t& inst, frame_t params, const std::vector<expression_t>& arguments, position_t pos);
     void add_process(instance_t& instance, position_t pos);
     variable_t* add_variable(declarations_t* context, type_t type, verif_name name, expression_t initial, position_t pos);
     variable_t* add_variable_to_function(function_t* function, frame_t frame, type_t type, verif_name name, expression_t initial, position_t pos);
@@ -307,6 +310,7 @@ static expression_t pre_[2];
    are NOT the template's symbols - its own `arguments` count, and inherited bindings (pre_mapped: bit i = its parameter i
    is bound already, bits 2/3 = template parameter 0/1 is bound already) */
 static instance_t src_;
+static int g_lsc; /* 1: the harness exercises add_LSC_instance / lsc_instances instead of add_instance / instances */
 static symbol_t src_param_[2];
 static int src_kind_, src_ns_;
 int w08_add_instance(int name, int nfree, int nargs, int src_arguments, int pre_mapped, int src_kind, int ns)
@@ -330,15 +334,18 @@ int w08_add_instance(int name, int nfree, int nargs, int src_arguments, int pre_
     std::vector<expression_t> a;
     for (int i = 0; i < 2; i++) { if (i < nargs) { args_[i] = expression_t::create_constant(50 + i); a.push_back(args_[i]); } }
     src_ptr_ = src;
+    if (g_lsc) { instance_t& li = doc.add_LSC_instance(name, *src, params, a, position_t()); return doc.lsc_instances.index_of(&li); }
     instance_t& inst = doc.add_instance(name, *src, params, a, position_t());
     return doc.instances.index_of(&inst);
 }
+void w08_use_lsc(int on) { g_lsc = on; }
 /* what: 0 count, 2 uid, 3 user data, 4 name, 6 unbound, 7 arguments, 8 templ is template 0, 9 number of parameters, 10+k: name of parameter k,
    20+k: parameter k of the INSTANTIATED INSTANCE is mapped to argument k (1), mapped to something else (2), unmapped (0); 30: type is INSTANCE over the free-parameter frame (arity == unbound) */
 int w08_inst(int what, int i)
 {
-    if (what == 0) return (int)doc.instances.size();
-    instance_t& in = doc.instances.at(i);
+    std::list<instance_t>* lp; if (g_lsc) lp = &doc.lsc_instances; else lp = &doc.instances;
+    if (what == 0) return (int)lp->size();
+    instance_t& in = lp->at(i);
     template_t& t0 = doc.templates.at(0);
     if (what == 2) return in.uid.id;
     if (what == 3) return verif_symtab[in.uid.id].user == (void*)&in;
@@ -355,13 +362,34 @@ int w08_inst(int what, int i)
         return in.mapping.val[p.id].data == pre_[what - 20].data ? 3 : 2; /* 3 = the inherited binding */
     }
     int ty = verif_symtab[in.uid.id].type;
-    return (ty - 10000) / 1024 == TCODE_INSTANCE && (ty - 10000) % 16 == (int)in.unbound;
+    return (ty - 10000) / 1024 == (g_lsc ? TCODE_LSC : TCODE_INSTANCE) && (ty - 10000) % 16 == (int)in.unbound;
 }
 /* the instantiated instance after the call: number of bindings it still carries, and whether binding k is still its own */
 static instance_t* src_ptr_;
 int w08_src_mapped_count(void) { int c = 0; for (int k = 0; k < VERIF_NSYMS; k++) c += src_ptr_->mapping.has[k]; return c; }
 int w08_src_keeps(int k) { symbol_t p = src_param_[k]; return p.id >= 0 && src_ptr_->mapping.has[p.id] && src_ptr_->mapping.val[p.id].data == pre_[k].data; }
-int w08_mapped_count(int i) { int c = 0; for (int k = 0; k < VERIF_NSYMS; k++) c += doc.instances.at(i).mapping.has[k]; return c; }
+int w08_mapped_count(int i) { std::list<instance_t>* lp; if (g_lsc) lp = &doc.lsc_instances; else lp = &doc.instances; int c = 0; for (int k = 0; k < VERIF_NSYMS; k++) c += lp->at(i).mapping.has[k]; return c; }
+/* add_process on instance 0 (built by w08_add_instance); what: 0 count, 1 its symbol is new (not the instance's), 2 user data is the
+   process object, 3 name is the instance's name, 4 type code, 5 type arity/frame ok, 6 copies unbound/arguments/templ/parameters,
+   7 copies the mapping, 8 the instance still owns its own symbol */
+int w08_add_process(void) { instance_t& in = doc.instances.at(0); doc.add_process(in, position_t()); return (int)doc.processes.size(); }
+int w08_proc(int what)
+{
+    instance_t& in = doc.instances.at(0);
+    if (what == 0) return (int)doc.processes.size();
+    instance_t& p = doc.processes.at(doc.processes.size() - 1);
+    int ty = verif_symtab[p.uid.id].type;
+    switch (what) {
+    case 1: return p.uid.id != in.uid.id && p.uid.id >= 0;
+    case 2: return verif_symtab[p.uid.id].user == (void*)&p;
+    case 3: return verif_symtab[p.uid.id].name == verif_symtab[in.uid.id].name && verif_symtab[p.uid.id].frame == doc.global.frame.which;
+    case 4: return ty >= 20000 ? TCODE_PROCESS_SET : (ty - 10000) / 1024;
+    case 5: return ty >= 20000 ? ty == 20000 + verif_symtab[in.uid.id].type : ((ty - 10000) % 1024) / 16 == p.templ->frame.which;
+    case 6: return p.unbound == in.unbound && p.arguments == in.arguments && p.templ == in.templ && p.parameters.which == in.parameters.which;
+    case 7: { for (int k = 0; k < VERIF_NSYMS; k++) { if (p.mapping.has[k] != in.mapping.has[k] || (p.mapping.has[k] && p.mapping.val[k].data != in.mapping.val[k].data)) return 0; } return 1; }
+    default: return verif_symtab[in.uid.id].user == (void*)&in;
+    }
+}
 }
 #ifdef C04_BUILDER
 #include "builder04.inc" /* C04 kernel K2 on top of this environment */
